@@ -82,7 +82,10 @@ def _trace(su: Setup) -> list[tuple]:
     for e in su.net.ledger:
         out.append((e["op"], e["sock"], e.get("host"), e.get("port"), e.get("path"), e.get("timeout"),
                     e.get("data") if e["op"] == "write" else e.get("data") and len(e["data"]),
-                    e.get("delivered"), e.get("fault"), e.get("server_hostname"), e.get("seconds"), e.get("implicit")))
+                    e.get("delivered"), e.get("fault"), e.get("server_hostname"), e.get("seconds"), e.get("implicit"),
+                    # a network operation issued inside the pool's critical section blocks other threads (sync) but
+                    # nobody in the async twin, whose thread lock is a no-op: an observable difference
+                    e.get("under_pool_lock")))
     return out
 
 
